@@ -60,7 +60,7 @@ class Ctx:
 
 def cfg_text(spec="Spec", constants=None, invariants=(), properties=(), view=None,
              action_constraints=(), constraints=(), postcondition=None, init=None, next_=None,
-             symmetry=None):
+             symmetry=None, substitutions=None):
     lines = []
     if init:
         lines += ["INIT %s" % init, "NEXT %s" % next_]
@@ -70,6 +70,11 @@ def cfg_text(spec="Spec", constants=None, invariants=(), properties=(), view=Non
         lines.append("CONSTANTS")
         for k, v in constants.items():
             lines.append("  %s = %s" % (k, tla_value(v)))
+    if substitutions:
+        if not constants:
+            lines.append("CONSTANTS")
+        for k, v in substitutions.items():
+            lines.append("  %s <- %s" % (k, v))
     if view:
         lines.append("VIEW %s" % view)
     if symmetry:
@@ -361,10 +366,11 @@ def finish(ctx, level, coverage, assumptions):
 
 # --------------------------------------------------------------------------- trace validation (V)
 
-def validate_trace(ctx, module, constants, trace_path, name, timeout=900, extra_env=None, xmx="4g", invariants=()):
+def validate_trace(ctx, module, constants, trace_path, name, timeout=900, extra_env=None, xmx="4g", invariants=(),
+                   substitutions=None):
     """Runs a Trace_* module over an NDJSON file (env TRACE).  Returns
     dict(accepted, rejected (payload of the first unmatched event or None), states, wall_s)."""
-    cfg = cfg_text(constants=constants, postcondition="Accepted", invariants=invariants)
+    cfg = cfg_text(constants=constants, postcondition="Accepted", invariants=invariants, substitutions=substitutions)
     env = {"TRACE": trace_path}
     if extra_env:
         env.update(extra_env)
@@ -372,7 +378,10 @@ def validate_trace(ctx, module, constants, trace_path, name, timeout=900, extra_
                            xss="1g", xmx=xmx)
     rejected = None
     fails = []
+    drift = None
     for line in text.splitlines():
+        if line.startswith('<<"DRIFT", '):
+            drift = json.loads(json.loads(line[len('<<"DRIFT", '):-2]))
         if line.startswith('<<"FAILS", '):
             fails = json.loads(json.loads(line[len('<<"FAILS", '):-2]))["events"]
         if line.startswith('<<"REJECTED", '):
@@ -383,7 +392,7 @@ def validate_trace(ctx, module, constants, trace_path, name, timeout=900, extra_
     accepted = rejected is None and parsed["distinct"] is not None and "Error:" not in text
     if not accepted and rejected is None:
         raise ToolError("trace validation of %s failed without a REJECTED line:\n%s" % (name, "\n".join(text.splitlines()[-30:])))
-    return {"accepted": accepted, "rejected": rejected, "fails": fails, "states": parsed["distinct"],
+    return {"accepted": accepted, "rejected": rejected, "fails": fails, "drift": drift, "states": parsed["distinct"],
             "wall_s": parsed["wall_s"], "cmd": parsed["cmd"]}
 
 
